@@ -99,7 +99,7 @@ def main():
             na.append({"property_id": pid, "reason": PENDING})
     man = {
         "version": 1,
-        "setup_cmd": "cd /verif && GOFLAGS=-mod=mod GOPROXY=off go build ./... && GOFLAGS=-mod=mod GOPROXY=off go vet -tags verif ./internal/... >/dev/null 2>&1; true",
+        "setup_cmd": "cd /verif && GOFLAGS=-mod=mod GOPROXY=off go build -tags verif ./... && GOFLAGS=-mod=mod GOPROXY=off go vet -tags verif ./internal/...",
         "hooks": {
             "guard": "verif",
             "enable": "go build tag: checks build /repo through the replace directive in /verif/go.mod with `go test -c -tags verif`",
